@@ -79,6 +79,14 @@ fn run_local(op: &str, a: &Args) -> Option<Args> {
                 (_, Some(_)) => skip(),
             }
         }
+        // calibration (never emitted as a case): wall time of one zeroed 64 MiB MutableBuffer, the legitimate
+        // bounded pre-allocation of the IPC stream reader; on a loaded / ballooned VM this alone can take seconds
+        "c08.calibrate" => {
+            let t = std::time::Instant::now();
+            let b = arrow_buffer::MutableBuffer::from_len_zeroed(64 << 20);
+            let x = std::hint::black_box(b.as_slice()[b.len() - 1]) as u128;
+            vec![g((t.elapsed().as_millis() + x) as i64)]
+        }
         _ => match probe_local(op, a) { Some(o) => o, None => return None },
     };
     Some(out)
@@ -167,7 +175,22 @@ fn run_chunk(id: usize, jobs: &[(String, Args)], wd_ms: u64) -> Vec<Args> {
 /// Parent: run all jobs in parallel worker children and memoise the results.
 pub fn run_batch(jobs: Vec<(String, Args)>) -> Vec<Args> { let wd = watchdog_ms(); run_batch_wd(jobs, wd, wd * 6) }
 /// first pass with watchdog `first_ms`; a timeout is confirmed by a solo re-run with `confirm_ms` before it is reported
+fn calibration_ms() -> u64 {
+    static CAL: OnceLock<u64> = OnceLock::new();
+    *CAL.get_or_init(|| {
+        let jobs: Vec<(String, Args)> = (0..3).map(|i| ("c08.calibrate".to_string(), vec![g(i as i64)])).collect();
+        let outs = run_chunk(9999, &jobs, 120_000);
+        let all: Vec<u64> = outs.iter().map(|o| o.get(0).and_then(|g| g.get(0)).and_then(|x| u64::try_from(x).ok()).unwrap_or(0)).collect();
+        let ms = all.iter().copied().max().unwrap_or(0);
+        if std::env::var("C08_TRACE").is_ok() { eprintln!("c08: calibration samples {all:?}"); }
+        eprintln!("c08: calibration: zeroed 64 MiB buffer takes {ms} ms in a worker");
+        ms
+    })
+}
 pub fn run_batch_wd(jobs: Vec<(String, Args)>, first_ms: u64, confirm_ms: u64) -> Vec<Args> {
+    // watchdogs never shorter than a few legitimate 64 MiB pre-allocations on this machine right now
+    let cal = calibration_ms();
+    let (first_ms, confirm_ms) = (first_ms.max(6 * cal), confirm_ms.max(20 * cal));
     let nw = std::env::var("C08_WORKERS").ok().and_then(|s| s.parse().ok()).unwrap_or(8usize).max(1);
     let n = jobs.len();
     let per = (n + nw - 1) / nw.max(1);
@@ -196,7 +219,7 @@ pub fn run_batch_wd(jobs: Vec<(String, Args)>, first_ms: u64, confirm_ms: u64) -
 }
 
 pub fn run(op: &str, a: &Args) -> Option<Args> {
-    if !matches!(op, "c08.outcome" | "c08.column" | "c08.thrift_meta" | "c08.schema_probe" | "c08.avro_longs" | "c08.ipc_batch") { return None }
+    if !matches!(op, "c08.outcome" | "c08.column" | "c08.thrift_meta" | "c08.schema_probe" | "c08.avro_longs" | "c08.ipc_batch" | "c08.calibrate") { return None }
     if let Ok(p) = std::env::var("C08_CHILD") { return run_child(op, a, &p) }
     if std::env::var("C08_INPROC").is_ok() { return run_local(op, a) }
     if let Some(o) = cache().lock().unwrap().get(&key(op, a)) { return Some(o.clone()) }
